@@ -8,7 +8,7 @@ def run(ctx):
     ctx.rule = ('model-guided random histories (2 tokens, <=5 sessions; open/close/close-all/login/logout/create/copy/find/destroy); after EVERY call every '
                 'live handle and a sample of dead ones are probed (sessions: C_GetSessionInfo, objects: C_GetAttributeValue(CKA_LABEL)=unique tag); '
                 'one evaluation = one probe or step; distinct = (handle kind, object kind, expected liveness) classes and session cases actually probed')
-    n = ctx.q(160, 3000); steps = ctx.q(40, 60)
+    n = ctx.q(600, 6000); steps = ctx.q(50, 60)
     run_walks(ctx, {'C11'}, n, steps, weights=W, backends=ctx.q(('file',), ('file', 'db')))
     ctx.assumptions += ['probing uses a session of the same token; cross-token use of a handle is outside the property', 'dead handles beyond a random sample of 10 (objects) / 4 (sessions) per step are not re-probed at that step']
 if __name__ == '__main__': main('C11', run, min_evaluations=1000, min_distinct=8)
